@@ -203,7 +203,7 @@ impl Observer for C07Obs<'_> {
         }
         // The eviction boundary after a completed flush with the worker idle is the last log id at the moment the
         // newest chunk was started (its head snapshot): anything higher would make entries of the open chunk evictable.
-        if info.worker == WorkerAt::Idle && info.after_op && matches!(self.case.hist.steps.get(info.step).map(|s| &s.op), Some(Op::Sync)) && self.case.faults.is_empty() {
+        if info.worker == WorkerAt::Idle && matches!(self.case.hist.steps.get(info.step).map(|s| &s.op), Some(Op::Sync)) && self.case.faults.is_empty() {
             let chunks = crate::store::list_chunks(&st.dir);
             if let Some((_, path)) = chunks.last() {
                 if let Ok(bytes) = std::fs::read(path) {
